@@ -34,4 +34,42 @@ __CPROVER_ensures(SPEC_TOUCHNOTE_POST_SILENT(channelVolume, channelExpression))
 /* modulators are left untouched unless modulator scaling or a reduced brightness is in force */
 __CPROVER_ensures(SPEC_TOUCHNOTE_POST_MODS(brightness))
 ;
+
+/* ---------------------------------------------------------------- noteOn / noteOff / setPatch / setPan ------ */
+/* exp() behind s_commonFreq: any double whatsoever may come back (finite, infinite, NaN) - no assumption on libm here */
+double exp(double x)
+__CPROVER_requires(1)
+__CPROVER_assigns()
+__CPROVER_ensures(1);
+
+#define SPEC_OPREG_WRITE_OK(k, c, base) (g_tap[k].chip == SPEC_CH_CHIP(c) && g_tap[k].port == SPEC_CH_PORT(c) && !g_tap[k].is_pan && g_tap[k].addr == (base) + SPEC_CH_CC(c) + 4 * (k))
+extern uint8_t in_dtmul[4];   /* ghost: the cached instrument's DT/MUL bytes */
+
+/* C02: for EVERY double tone (no precondition on it, none on the cached instrument) the call returns (unwinding
+ * assertions of both halving loops) and either writes nothing or exactly 4 operator DT/MUL registers, A4, A0 and key-on
+ * of its own channel; C10 (structural): block/F-number fields in range, A4 before A0, key-on last, multiplier saturates */
+void noteOn(size_t c, double tone)
+__CPROVER_requires(ENV_SYNTH_INV && c < g_synth.m_numChannels && g_tap_n == 0)
+__CPROVER_requires(in_dtmul[0] == g_insCache_storage[c].OPS[0].data[0] && in_dtmul[1] == g_insCache_storage[c].OPS[1].data[0] &&
+                   in_dtmul[2] == g_insCache_storage[c].OPS[2].data[0] && in_dtmul[3] == g_insCache_storage[c].OPS[3].data[0])
+__CPROVER_assigns(g_tap_n, __CPROVER_object_whole(g_tap))
+__CPROVER_ensures(g_tap_n == 0 || g_tap_n == 7)
+__CPROVER_ensures(g_tap_n == 7 ==> (SPEC_OPREG_WRITE_OK(0, c, 0x30) && SPEC_OPREG_WRITE_OK(1, c, 0x30) && SPEC_OPREG_WRITE_OK(2, c, 0x30) && SPEC_OPREG_WRITE_OK(3, c, 0x30)))
+/* detune nibble of every operator is the instrument's; the multiplier is the instrument's plus a common increment, saturated at 15 */
+__CPROVER_ensures(g_tap_n == 7 ==> ((g_tap[0].val & 0xF0) == (in_dtmul[0] & 0xF0) && (g_tap[1].val & 0xF0) == (in_dtmul[1] & 0xF0) &&
+                                    (g_tap[2].val & 0xF0) == (in_dtmul[2] & 0xF0) && (g_tap[3].val & 0xF0) == (in_dtmul[3] & 0xF0) &&
+                                    (g_tap[0].val & 0x0F) >= (in_dtmul[0] & 0x0F) && (g_tap[1].val & 0x0F) >= (in_dtmul[1] & 0x0F) &&
+                                    (g_tap[2].val & 0x0F) >= (in_dtmul[2] & 0x0F) && (g_tap[3].val & 0x0F) >= (in_dtmul[3] & 0x0F)))
+/* frequency: A4 (block + F-number high bits, block <= 7) is written before A0 (F-number low), key-on of this channel last */
+__CPROVER_ensures(g_tap_n == 7 ==> (g_tap[4].chip == SPEC_CH_CHIP(c) && g_tap[4].port == SPEC_CH_PORT(c) && g_tap[4].addr == 0xA4 + SPEC_CH_CC(c) && g_tap[4].val <= 0x3F &&
+                                    g_tap[5].chip == SPEC_CH_CHIP(c) && g_tap[5].port == SPEC_CH_PORT(c) && g_tap[5].addr == 0xA0 + SPEC_CH_CC(c) &&
+                                    g_tap[6].chip == SPEC_CH_CHIP(c) && g_tap[6].port == 0 && g_tap[6].addr == 0x28 &&
+                                    g_tap[6].val == 0xF0 + ((c % 6) < 3 ? (c % 6) : (c % 6) + 1)))
+;
+
+void noteOff(size_t c)
+__CPROVER_requires(ENV_SYNTH_INV && c < g_synth.m_numChannels && g_tap_n == 0)
+__CPROVER_assigns(g_tap_n, __CPROVER_object_whole(g_tap))
+__CPROVER_ensures(g_tap_n == 1 && g_tap[0].chip == SPEC_CH_CHIP(c) && g_tap[0].port == 0 && g_tap[0].addr == 0x28 && !g_tap[0].is_pan &&
+                  g_tap[0].val == ((c % 6) < 3 ? (c % 6) : (c % 6) + 1));
 #endif
